@@ -47,6 +47,10 @@ def literal_ops(lit):
     w = "seedb:%s:%s" % (hx(bytes(range(16, 48))), "01"[lit % 2])
     if lit < 2 ** 31:
         yield "generate %s %d 0 1" % (w, lit)
+        for t in "01":          # the literal as PURPOSE of a path (hardened and not), on both networks
+            w2 = "seedb:%s:%s" % (hx(bytes(range(16, 48))), t)
+            yield "w_extkeys %s %s" % (w2, sx("m/%d'/%s'/0'" % (lit, t)))
+            yield "w_extkeys %s %s" % (w2, sx("m/%d/0" % lit))
 
 
 LITERAL_BUDGET = 16
@@ -94,6 +98,12 @@ def cases(rng, tier):
                 yield "generate %s 0 0 1" % w, "import-generate"
                 yield "wasabi %s" % w, "import-wasabi"
     yield from _self_describing_imports(rng, tier)
+    # every small purpose number (not only 44 / 49 / 84): extended keys of such nodes carry the wallet's network
+    purposes = list(range(0, 100)) if tier == "thorough" else [0, 1, 43, 44, 45, 48, 49, 50, 83, 84, 85, 86, 87, 141]
+    for t in "01":
+        w = "seedb:%s:%s" % (hx(bytes(rng.getrandbits(8) for _ in range(32))), t)
+        for pu in purposes:
+            yield "w_extkeys %s %s" % (w, sx("m/%d'/%s'/0'" % (pu, t))), "purpose-sweep"
 
 
 def _self_describing_imports(rng, tier):
